@@ -36,7 +36,7 @@ RULE = ("WSGI SendEventResponse rendezvous scenarios: producer length n in 0..4 
         "SendEventResponse on a virtual-time grid: n in 0..4 x producer delay {0,.5,1.5,4} x send delay {0,.5} x disconnect at {none, {0,.5,1,1.5,2,3}+-eps} x raise point "
         "{none,0,1} x async-generator / plain async-iterable producers. Non-trivial = the close/disconnect happens before the producer is exhausted; distinct = scenario "
         "tuple (rendezvous/grid: by construction) or the observed cross-thread line interleaving (yield injection).")
-RULE += ' Also: field-less events and zero-length chunks as producer steps, producers whose cleanup raises, iterator-object and iterable-object producers with their own close(), a relay still queued behind a saturated pool, ASGI send() failures combined with raising cleanup, endless producers that never await (step cap 5000).'
+RULE += ' Also: producers whose cleanup takes a moment (when close() has returned, the cleanup has finished); field-less events and zero-length chunks as producer steps, producers whose cleanup raises, iterator-object and iterable-object producers with their own close(), a relay still queued behind a saturated pool, ASGI send() failures combined with raising cleanup, endless producers that never await (step cap 5000).'
 ASSUMPTIONS = [
     "the producer's cleanup marker is synchronous (a finally that itself awaits can be cut short by asyncio cancellation: an observation, never used for a verdict)",
     "closing a WSGI response iterable on which next() was never called starts nothing and carries no expectations",
@@ -158,6 +158,8 @@ def rendezvous(ctx, n, k, state, then, ping, empties=False, producer="generator"
                 if then == "raise":
                     raise KeyError("producer")
         finally:
+            if then == "slow-cleanup":
+                time.sleep(0.05)  # the cleanup takes a moment (unsubscribing from a broker, closing a cursor)
             marks["cleanup"] += 1
             if then == "cleanup-raises":
                 raise KeyError("producer")  # the producer's own cleanup fails
@@ -197,6 +199,7 @@ def rendezvous(ctx, n, k, state, then, ping, empties=False, producer="generator"
             res["yielded_at_close"] = len(marks["yielded"])
             res["closing"] = True
             it.close()
+            res["cleanup_at_close_return"] = (marks["entered"], marks["cleanup"])
             res["closed"] = True
         except BaseException as e:  # noqa
             res["exc"] = e
@@ -239,6 +242,9 @@ def rendezvous(ctx, n, k, state, then, ping, empties=False, producer="generator"
     if producer == "generator":
         if marks["entered"] and marks["cleanup"] != 1:
             probs.append((f"cleanup-ran-{marks['cleanup']}-times", ""))
+        elif res.get("cleanup_at_close_return", (0, 0))[0] and res["cleanup_at_close_return"][1] != 1:
+            # when close() has returned the generator IS closed: its cleanup has run, not merely been started by a pool thread
+            probs.append(("close-returned-before-the-producer-cleanup-had-finished", repr(res["cleanup_at_close_return"])))
     elif marks["entered"] and marks["obj_closed"] != 1:
         # (the generator handed out by iter() is not judged here: an exception's traceback may keep it alive)
         probs.append((f"iterable-object-close-called-{marks['obj_closed']}-times", ""))
@@ -249,7 +255,7 @@ def rendezvous(ctx, n, k, state, then, ping, empties=False, producer="generator"
         ids = None
     if ids is None or ids != marks["yielded"][:len(ids)]:
         probs.append(("delivered-not-a-prefix-of-yielded", f"{ids} vs {marks['yielded']}"))
-    elif k > n and then in ("yield", "cleanup-raises") and res.get("exc") is None and ids != list(range(n)):
+    elif k > n and then in ("yield", "cleanup-raises", "slow-cleanup") and res.get("exc") is None and ids != list(range(n)):
         # the client never closed early and nothing raised: the stream may only end when the producer is exhausted, with everything delivered
         probs.append(("stream-ended-before-everything-was-delivered", f"client read to the end and got {ids}; the producer has {n} events"))
     ctx.mon("producer-steps-after-close")
@@ -1010,6 +1016,8 @@ def run(ctx):
     for n, k in ((2, 1), (3, 1), (3, 2), (2, 3), (3, 0)):
         scen += [(n, k, "exhausted" if k > n else "ahead", "yield", 5, True), (n, min(k, n - 1), "midstep", "yield", 5, True),
                  (n, min(k, n - 1), "midstep", "cleanup-raises", 5), (n, min(k, n - 1), "ahead", "cleanup-raises", 0.02)]
+    for n, k in ((3, 1), (3, 0), (2, 3), (4, 2)):
+        scen += [(n, k, "exhausted" if k > n else "ahead", "slow-cleanup", ping) for ping in (5, 0.02)] + [(n, min(k, n - 1), "midstep", "slow-cleanup", 5)]
     for n in (2, 4, 6):
         scen += [(n, n + 1, "slow-client", "yield", 0.02), (n, n + 1, "slow-client", "yield", 0.02, True)]
     for n, k in ((2, 1), (3, 1), (3, 2), (2, 3), (3, 0), (1, 1)):
